@@ -552,6 +552,12 @@ def t_live_trace(when):
         on = z3.And(c.hget(self, 'instrumented'), c.hget(self, 'live_trace'))
         c.prove('live-trace[%s]:post/a-new-record-is-handed-to-the-callback-exactly-once' % when,
                 g['log_live_trace_len'] - t0 == z3.If(z3.And(on, appended), 1, 0), tags=('C21',))
+        # the precondition of the next step ("everything up to the last record has been printed"), re-established
+        if 'last_live_trace_record' in it.src.init_attrs('HsmWithQueues'):
+            TR1 = view(it, tr)
+            c.prove('live-trace[%s]:post/the-last-record-is-remembered-as-printed' % when,
+                    z3.Implies(on, c.hget(self, 'last_live_trace_record') ==
+                               z3.If(TR1.len > 0, TR1.at(TR1.len - 1), NONE)), tags=('C21',))
         c.cover('live-trace[%s]:cover' % when)
     return Target('live-trace[%s]' % when, run, [path, 'hsm.HsmWithQueues.trace_tuple_to_formatted_string'])
 
